@@ -137,7 +137,10 @@ def reduce_1d(reduce_func_name: str, arr, skipna: bool = True, n_threads: int = 
             list(zip(np.array_split(arr, n_threads))),
         )
         chunks = output_converter(chunks)
-        result = reduce_1d(chunk_reduction, chunks, skipna=skipna, n_threads=1)
+        # partial sums / counts hold no nulls (an all-null piece contributes 0): they are simply added, so that
+        # an integer partial sum that happens to equal the null sentinel is not skipped
+        merge_skipna = skipna and chunk_reduction != "sum"
+        result = reduce_1d(chunk_reduction, chunks, skipna=merge_skipna, n_threads=1)
 
     if is_count:
         result = np.int64(result)
